@@ -116,6 +116,7 @@ def run_case(case: dict[str, Any]) -> dict[str, Any]:
     tl = None
     pols = [simdist.LazyCompletion(seed), simdist.RandomPolicy(seed, 0.4)]
     prog = None
+    kcase = None
     stats = {}
     for pol in pols:
         out = gptrun.replay(cfg, h, seed, pol)
@@ -125,6 +126,7 @@ def run_case(case: dict[str, Any]) -> dict[str, Any]:
                            f'{m["msg"]} [{pol.name}]',
                            {'cat': m['cat'], 'mode': 'mem'}))
         prog = prog or (out['programs'], out['groups'])
+        kcase = kcase or out.get('kcase')
     if case.get('dir'):
         issues += check_dir(cfg, h, seed)
     if case.get('tlc') and prog and not issues:
@@ -134,7 +136,7 @@ def run_case(case: dict[str, Any]) -> dict[str, Any]:
         if not r.ok:
             issues.append((f'TLC over the extracted programs: {r.violated}',
                            {'cat': 'tlc', 'inv': str(r.violated)}))
-    return {'issues': issues[:5], 'tlc': tl, 'stats': stats,
+    return {'issues': issues[:5], 'tlc': tl, 'stats': stats, 'kcase': kcase,
             'execs': len(pols) + int(bool(case.get('dir')))}
 
 
@@ -170,7 +172,26 @@ def main(tier: str, seed: int) -> int:
             v.violation(f'{what} :: {json.dumps(cs["cfg"])[:260]} history '
                         f'{[(x["act"], x["arg"]) for x in cs["h"]]}', sig,
                         replay={'case': cs})
+    # spec/GptDist.tla over the recorded executions: clauses decide,
+    # conformance with the derived protocol is reported as drift only
+    from harness import gptdist
+    kidx = [i for i, o in enumerate(outs) if o.get('kcase')]
+    kbad, kdrift, ks, kt = gptdist.check_all([outs[i]['kcase'] for i in kidx])
+    states += ks
+    trans += kt
+    for j, inv in kbad:
+        cs = cases[kidx[j]]
+        v.violation(
+            f'{gptdist.CLAUSE_TEXT[inv]} [TLC: {inv} of GptDist.tla on the '
+            f'recorded execution] :: {json.dumps(cs["cfg"])[:260]} history '
+            f'{[(x["act"], x["arg"]) for x in cs["h"]]}',
+            {'kind': 'clause', 'inv': inv}, replay={'case': cs})
+    if kdrift:
+        v.note(f'model-drift: {kdrift} executions whose recorded collective '
+               'sequence differs from GptDist.tla although every clause '
+               'holds on them')
     v.coverage = {
+        'gptdist_cases': len(kidx), 'gptdist_drift': kdrift,
         'states': max(states, 1), 'transitions': max(trans, 1),
         'traces_validated_against_impl': sum(o['execs'] for o in outs),
         'samples': [{'cfg': cases[0]['cfg'],
@@ -202,4 +223,9 @@ def replay(path: str) -> int:
     rec = json.load(open(path))
     out = run_case(rec['replay']['case'])
     print(out['issues'])
-    return 1 if out['issues'] else 0
+    bad = []
+    if out.get('kcase'):
+        from harness import gptdist
+        bad = gptdist.check_all([out['kcase']])[0]
+        print(bad)
+    return 1 if out['issues'] or bad else 0
